@@ -11,26 +11,40 @@ RULE = ("hist: histories of table operations (request default i / re-weight hand
         "0..10^5 (any case, non-ACGT letters, lengths not divisible by 3); conc: 2-4 goroutines re-weighting different "
         "default tables. non-trivial = history with at least one re-weighting; distinct by case text")
 EXHAUSTIVE = {"quick": True, "thorough": True}   # quick: all histories to length 3; thorough: to length 4
+SHARDS = {"quick": 4, "thorough": 16}            # cases are self-contained (start tables snapshotted / restored and reported per case)
 TRUSTED_BASE = ["harness resets the named default tables to weight 1 through the aliased slices before each history and "
                 "reports them; the Lean side checks the report against the regenerated tables",
                 "encoding/json round trip of a Table is the identity on values (checked by correspondence only)",
                 "Go memory model / scheduler: the heap model's steps are atomic; data races are looked for with -race only",
                 "ASCII restriction: strings.ToUpper and range-over-string are modelled on ASCII"]
-ASSUMPTIONS = ["inputs are ASCII", "weights and their sums stay below 2^53 (sequences of at most 10^5 letters)",
-               "amd64: int(NaN) = -2^63 in CompromiseCodonTable when an amino acid has total weight 0"]
+ASSUMPTIONS = ["coding sequences are ASCII text (any ASCII character: letters of either case, digits, blanks, line breaks, "
+               "punctuation). A sequence with a non-ASCII character is OUTSIDE the judged domain (class ood:non-ascii, "
+               "correspondence only): there the code's byte-length test currentCodon.Len()==3 loses the frame for the rest of "
+               "the sequence (\"\u00e9\u00e9\u00e9ATG\" gives ATG=0), reported to the coordinator as a candidate finding",
+               "weights and their sums stay below 2^53 (sequences of at most 10^5 letters)",
+               "int(NaN) is platform-defined in Go: from the first compromise step with an amino acid of total weight 0 onwards a "
+               "history is compared up to the code of the tables only (class suffix /nan)",
+               "add / compromise steps inside a history are judged for SHARING only: the value-semantics spec uses the model's "
+               "addTable / compromise (their own spec is C18); a wrong sum inside a history shows as a correspondence DIFF"]
 PARTIAL = ["'a freshly requested default table always carries the pristine NCBI assignments with uniform weight 1' and "
-           "'unaffected by earlier re-weightings' are FALSE of the code on non-linear histories (known finding "
-           "C08-alias-default, kernel-checked counterexample alias_witness); history_refines proves them for Linear histories only",
+           "'unaffected by earlier re-weightings' are FALSE of the code on non-linear histories (known findings "
+           "C08-alias-default and C08-receiver-mutated, kernel-checked counterexamples alias_witness, stale_witness, "
+           "receiver_witness); history_refines proves them for Linear histories only. In a FRESH process the clause about "
+           "default tables is judged on every first use of an id (start table reported before anything re-weights it) and "
+           "pinned by the theorem defaults_uniform on the regenerated tables",
            "'concurrent': disjoint_commute proves every interleaving of atomic re-weighting steps gives the same result; "
            "the absence of data races under the Go memory model is tested with the race detector, not proved"]
 NEEDS_RACE = True
+NEEDS_RACE_QUICK = True
 TIMEOUT_MS = 30000
 
 
 def bits(x):
     return str(struct.unpack("<Q", struct.pack("<d", x))[0])
 
-S3 = ["ATGATGATG", "gctGCATAAat", "ATGNNKgcC"]
+ALL64 = "".join("".join(p) for p in itertools.product("TCAG", repeat=3))
+# first string: every codon once plus a few (every amino acid of every code occurs, so compromise has no 0/0), mixed case, length % 3 = 2
+S3 = [ALL64[:90] + ALL64[90:].lower() + "ATGatgGCTgc", "gctGCATAAat", "ATGNNKgcC"]
 CUTS = [0.0, 0.1, 0.25, 0.5, 1.0, 1.5, -0.5, 0.0001, 0.3333]
 
 
@@ -64,7 +78,7 @@ def all_histories(n, ids, strings, cuts, prefix=()):
 
 def randseq(r, n, exotic):
     if exotic:
-        alpha = "ACGT" * 6 + "NRYKMSWBDHVU" + "XZ-*." + "acgtn"
+        alpha = "ACGT" * 8 + "NRYKMSWBDHVU" + "XZ-*." + "acgtn" + " \n\r\t0123456789>;=/"
     else:
         alpha = "ACGT"
     return randcase(r, randword(r, alpha, n)) if r.random() < 0.6 else randword(r, alpha, n)
@@ -100,7 +114,11 @@ def random_history(r, ids, n, linear):
                 break
             if k == "w":
                 h = r.randrange(i)
-                s = randseq(r, r.choice([0, 1, 2, 3, 4, 5, 6, 9, 12, 30, 31, 60]), r.random() < 0.4)
+                if r.random() < 0.25:
+                    s = coding(r, 192 + r.choice([0, 1, 2, 30]), False)
+                    s = ALL64 + s if r.random() < 0.7 else s
+                else:
+                    s = randseq(r, r.choice([0, 1, 2, 3, 4, 5, 6, 9, 12, 30, 31, 60]), r.random() < 0.4)
                 toks.append("w:%d:%s" % (h, s))
                 reg = lin.regions[h]
                 lin.regions.append(reg); lin.owner[reg] = i
@@ -132,7 +150,7 @@ def coding(r, n, exotic):
         b = list(body)
         for _ in range(max(1, n // 50)):
             if b:
-                b[r.randrange(len(b))] = r.choice("NRYKMSWXU-nx")
+                b[r.randrange(len(b))] = r.choice("NRYKMSWXU-nx 0\n")
         body = "".join(b)
     mode = r.random()
     if mode < 0.3: return body
@@ -141,14 +159,27 @@ def coding(r, n, exotic):
 
 
 def conc_cases(r, n):
-    for _ in range(n):
+    """writers on different default ids (same-code neighbours 1/11, 27/28 on purpose), plus readers of further ids"""
+    for i in range(n):
         k = r.choice([2, 2, 3, 4])
-        ids = r.sample(ALL_IDS, k)
-        yield ["conc"] + ["%d:%s" % (d, ",".join(coding(r, r.choice([9, 30, 300, 3000]), False) for _ in range(r.randint(1, 4)))) for d in ids]
+        ids = r.sample(ALL_IDS, k + 2)
+        if i % 3 == 0:
+            ids[:2] = r.choice([[1, 11], [11, 1], [27, 28]])
+            ids = list(dict.fromkeys(ids))
+            while len(ids) < k + 2:
+                d = r.choice(ALL_IDS)
+                if d not in ids: ids.append(d)
+        nread = r.choice([0, 1, 2])
+        ths = ["%d:%s" % (d, ",".join(coding(r, r.choice([9, 30, 300, 3000]), False) for _ in range(r.randint(1, 4)))) for d in ids[:k]]
+        ths += ["%d:@%d" % (d, r.choice([1, 5, 50])) for d in ids[k:k + nread]]
+        r.shuffle(ths)
+        yield ["conc"] + ths
 
 
 def cases(seed, tier):
     r = rng(seed, "C08")
+    # every default table (and a missing id) requested once, untouched: "a freshly requested default table is pristine"
+    yield ["hist", ",".join(map(str, ALL_IDS))] + ["g:%d" % d for d in ALL_IDS] + ["g:7", "g:0"]
     ids3 = [1, 2, 11]
     L = 3 if tier == "quick" else 4
     for n in range(1, L + 1):
@@ -165,8 +196,8 @@ def cases(seed, tier):
     nrand = 3000 if tier == "quick" else 12000
     for k in range(nrand):
         ids = r.sample(ALL_IDS, 3)
-        if r.random() < 0.3:
-            ids[1] = ids[0] if False else r.choice([1, 11, 4])   # same-code neighbours make compromise succeed more often
+        if r.random() < 0.4:
+            ids[:2] = r.choice([[1, 11], [11, 1], [27, 28], [28, 27], [1, 4]])   # identical-code neighbours built from separate Go maps
             ids = list(dict.fromkeys(ids))
         n = r.randint(2, 8)
         yield ["hist", ",".join(map(str, ids))] + random_history(r, ids, n, linear=(k % 2 == 0))
@@ -177,24 +208,30 @@ def cases(seed, tier):
     for _ in range(reps):
         for n in lens:
             d = r.choice(ALL_IDS)
-            yield ["hist", str(d), "g:%d" % d, "w:0:%s" % coding(r, n, n < 20000 and r.random() < 0.5)]
+            yield ["hist", str(d), "g:%d" % d, "w:0:%s" % coding(r, n, r.random() < 0.5)]
     # long sequences over a wide alphabet (many distinct non-codon triplets), two re-weightings in a row
     for _ in range(3 if tier == "quick" else 20):
         d = r.choice(ALL_IDS)
         yield ["hist", str(d), "g:%d" % d, "w:0:%s" % randseq(r, r.randint(1000, 5000), True),
                "w:1:%s" % coding(r, r.randint(1, 3000), True), "o:2"]
+    # outside the domain (not judged): non-ASCII characters
+    for w in ["\u00e9\u00e9\u00e9ATG", "AA\u00e9ATGATG", "A\u00e9ATGATG", "ATG\u65e5ATGATG", "atg\u00fcGCTgct", "ATGATG\u00e9"]:
+        yield ["hist", "1", "g:1", "w:0:" + w]
     yield from conc_cases(r, 20 if tier == "quick" else 100)
 
 
 def extra_runs(seed, tier, case_lines):
-    if tier != "thorough":
-        return
     conc = [l for l in case_lines if l.startswith("conc\t")]
-    control = "conc\t1:ATGATGATG,GCTGCT,ATG\t1:TTTTTT,AAA,CCC"
+    # control (not in the property): two writers on the SAME id, and a reader of a table being written, race by construction
+    controls = ["conc\t1:ATGATGATG,GCTGCT,ATG\t1:TTTTTT,AAA,CCC", "conc\t2:ATGATGATG,GCTGCT,ATG,TTT,AAA\t2:@200"]
+    if tier != "thorough":
+        # quick: every concurrent case once under the race detector (a data race kills the process: reply `race`)
+        yield ("race-quick", conc + controls, {"GOMAXPROCS": "4"}, True)
+        return
     for procs in ("1", "2", "16"):
-        env = {"GOMAXPROCS": procs, "GORACE": "halt_on_error=1", "VERIF_FLUSH_EACH": "1"}
+        env = {"GOMAXPROCS": procs}
         # >= 20 repetitions of the concurrent cases, different ids (in the property) ...
-        yield ("race-p" + procs, (conc * 20)[:2000] + [control], env, True)
+        yield ("race-p" + procs, (conc * 20)[:2000] + controls, env, True)
     for procs in ("1", "2", "16"):
         yield ("procs-p" + procs, conc * 5, {"GOMAXPROCS": procs}, False)
 
